@@ -155,7 +155,7 @@ func encValue(shape, fail string) any {
 	case "struct-inline":
 		return struct {
 			A   int
-			Inl map[string]any `json:",inline"`
+			Inl map[string]any `json:",embed"`
 		}{1, map[string]any{"bad": bad}}
 	case "ptr-struct":
 		return &struct {
